@@ -23,7 +23,7 @@ from sim.sched import Sched, SimDeadlock, SimHang, DONE
 STORAGES = ['Storage', 'PickleStorage', 'Hdf5Storage', '_NumpyStorage', '_NpcArrayStorage']
 KEYS = ['a', 'b', 'c', 'd']
 OP_KINDS = ['set', 'get', 'getd', 'del', 'in', 'len', 'iter', 'pop', 'setdefault', 'update', 'clear', 'items',
-            'preload', 'stk', 'sub', 'bool', 'sleep']
+            'preload', 'stk', 'sub', 'bool', 'sleep', 'popitem', 'values', 'keys']
 TRACE_FILES = ('tenpy/tools/cache.py', 'tenpy/tools/thread.py')
 
 
@@ -38,6 +38,16 @@ def value_kind_for(storage, wl):
     return wl.choice(['int', 'tuple', 'ndarray_pickled', 'dict'])
 
 
+_CHINFO = []
+
+
+def _chinfo():
+    if not _CHINFO:
+        from tenpy.linalg import np_conserved as npc
+        _CHINFO.append(npc.ChargeInfo([1], ['N']))
+    return _CHINFO[0]
+
+
 def mkval(kind, uid):
     if kind == 'int':
         return uid
@@ -48,9 +58,19 @@ def mkval(kind, uid):
     if kind in ('ndarray', 'ndarray_pickled'):
         return real_np.arange(uid, uid + 1 + uid % 5, dtype=float)
     if kind == 'npc':
+        # block-sparse tensors whose block structure (number of blocks, leg dimensions) varies with uid:
+        # _NpcArrayStorage keeps the charge metadata in RAM and only the blocks on disk
         from tenpy.linalg import np_conserved as npc
-        return npc.Array.from_ndarray_trivial(real_np.array([[float(uid), 1.0], [2.0, float(uid % 3)]]),
-                                              labels=['p', 'p*'])
+        chinfo = _chinfo()
+        qflat = [[0], [1]] if uid % 5 else [[0], [0], [1]]
+        leg = npc.LegCharge.from_qflat(chinfo, qflat)
+        n = len(qflat)
+        a = real_np.zeros((n, n))
+        a[0, 0] = float(uid)
+        a[n - 1, n - 1] = float(uid % 3)  # 0: this block is absent
+        if n == 3:
+            a[0, 1] = a[1, 0] = 0.5
+        return npc.Array.from_ndarray(a, [leg, leg.conj()], labels=['p', 'p*'])
     raise ValueError(kind)
 
 
@@ -309,7 +329,7 @@ def gen_plan(run_seed, fault_mode=None):
             ops.append([kind, c, k, uid])
         elif kind in ('get', 'getd', 'del', 'in', 'pop'):
             ops.append([kind, c, k])
-        elif kind in ('len', 'iter', 'clear', 'items', 'bool'):
+        elif kind in ('len', 'iter', 'clear', 'items', 'bool', 'popitem', 'values', 'keys'):
             ops.append([kind, c])
         elif kind == 'update':
             pairs = []
@@ -656,6 +676,12 @@ class _RunState:
             return ('none',)
         if kind == 'items':
             return ('plain', sorted([k, v] for k, v in model.items()))
+        if kind == 'values':
+            return ('plain', sorted(model.values()))
+        if kind == 'keys':
+            return ('plain', sorted(model))
+        if kind == 'popitem':
+            return ('popitem', sorted([k, v] for k, v in model.items())) if model else ('exc', 'KeyError')
         if kind == 'preload':
             if op[3] and any(k not in model for k in op[2]):
                 return ('exc', 'KeyError')
@@ -696,6 +722,13 @@ class _RunState:
             return None
         if kind == 'items':
             return sorted(([k, val_uid(vk, v)] for k, v in cache.items()), key=lambda kv: kv[0])
+        if kind == 'values':
+            return sorted(val_uid(vk, v) for v in cache.values())
+        if kind == 'keys':
+            return sorted(cache.keys())
+        if kind == 'popitem':
+            k, v = cache.popitem()
+            return [k, val_uid(vk, v)]
         if kind == 'preload':
             cache.preload(*op[2], raise_missing=op[3])
             return None
@@ -715,8 +748,10 @@ class _RunState:
             return ('val', val_uid(self.kind, got))
         if kind == 'getd':
             return ('default',) if got is _DEFAULT else ('val', val_uid(self.kind, got))
-        if kind in ('in', 'len', 'iter', 'bool', 'items'):
+        if kind in ('in', 'len', 'iter', 'bool', 'items', 'values', 'keys'):
             return ('plain', got)
+        if kind == 'popitem':
+            return ('popitem', got)
         if kind == 'sub':
             return ('sub',)
         return ('none',) if got is None else ('plain', repr(got)[:60])
@@ -784,8 +819,12 @@ class _RunState:
         if kind == 'getd' and out == ('default',):
             if threaded or key in self.tainted[c]:
                 return
-        if kind in ('in', 'len', 'iter', 'items', 'bool'):
+        if kind in ('in', 'len', 'iter', 'items', 'bool', 'values', 'keys'):
             if threaded or self.tainted[c]:
+                return
+        if kind == 'popitem' and out[0] == 'popitem':
+            k, uid = out[1]
+            if isinstance(uid, int) and uid in self.hist[c].get(k, ()) and (threaded or self.tainted[c]):
                 return
         if kind in ('set', 'update', 'del', 'clear', 'preload', 'stk', 'sub'):
             return
@@ -793,6 +832,8 @@ class _RunState:
 
     @staticmethod
     def matches(exp, out):
+        if exp[0] == 'popitem':
+            return out[0] == 'popitem' and list(out[1]) in [list(x) for x in exp[1]]
         if exp[0] == 'none_or':
             return out == ('none',) or out == ('exc', exp[1])
         return tuple(exp) == tuple(out)
@@ -833,6 +874,14 @@ class _RunState:
             if op[2] in model and not failed:
                 del model[op[2]]
                 lm[op[2]] = kind
+        elif kind == 'popitem':
+            if failed:
+                if out[1] != 'KeyError':
+                    self.tainted[c].update(model)
+            elif out[0] == 'popitem':
+                k = out[1][0]
+                model.pop(k, None)
+                lm[k] = 'popitem'
         elif kind == 'clear':
             if failed or self.tainted[c]:
                 # MutableMapping.clear() swallows a KeyError raised while popping a key whose earlier
@@ -846,8 +895,8 @@ class _RunState:
             # the real sub-cache was returned by apply(); fetch it again is impossible, so apply() result
             # is stored by step() through `got`: handled below
             pass
-        if kind in ('get', 'getd', 'items') and failed and self.fault_seen:
-            if kind == 'items':
+        if kind in ('get', 'getd', 'items', 'values') and failed and self.fault_seen:
+            if kind in ('items', 'values'):
                 self.tainted[c].update(model)
             else:
                 self.tainted[c].add(op[2])
